@@ -64,7 +64,10 @@ impl Migrator {
 
         let newlines_in_text = text.matches('\n').count() as u32;
         self.line += newlines_in_text;
-        let len = text.len() - text.rfind('\n').map(|x| x + 1).unwrap_or(0);
+        // Token columns count characters, so advance by characters, not bytes.
+        let len = text[text.rfind('\n').map(|x| x + 1).unwrap_or(0)..]
+            .chars()
+            .count();
         if newlines_in_text > 0 {
             self.column = 1;
         } else {
